@@ -141,6 +141,11 @@ func renderNodeWithContext(ctx VueContext, w io.Writer, node *html.Node, indent 
 			}
 		}
 
+	case html.DoctypeNode:
+		if _, err := w.Write([]byte("<!DOCTYPE " + node.Data + ">\n")); err != nil {
+			return err
+		}
+
 	case html.ElementNode:
 		// Count children without allocating slice
 		childCount := 0
